@@ -218,6 +218,9 @@ def strategy(name, maxlen):
              st.text(alphabet=st.sampled_from(al), min_size=0, max_size=MAXLEN[name] + 2),
              st.text(alphabet=st.sampled_from(al), min_size=max(MAXLEN[name] - 6, 0), max_size=MAXLEN[name] + 1),
              gen.edits(valid), st.text(max_size=20)]
+    # presentations that do not depend on what the tree under test currently accepts (gen.decorations learns them from it)
+    parts += [st.one_of(valid, raw).flatmap(lambda v: st.sampled_from([v.lower(), v.upper(), v.swapcase(), ' ' + v.lower(), v[:-1] + v[-1:].lower()])),
+              st.tuples(st.one_of(valid, raw), st.integers(0, 40), st.sampled_from(' -')).map(lambda t: t[0][:t[1]] + t[2] + t[0][t[1]:])]
     if name == 'iban':
         parts += [constructed_iban(), constructed_iban(), neighbours(name, constructed_iban())]
     if name in ('iso11649', 'lei'):
